@@ -30,8 +30,8 @@ ASSUMPTIONS = ["round 1 may normalise arbitrarily (or reject the interface: coun
 
 
 def streams(ctx):
-    return [("wide", ctx.scale(220, 4000)), ("legal", ctx.scale(120, 2500)), ("announced", ctx.scale(150, 2500)),
-            ("undocumented", ctx.scale(100, 1500))]
+    return [("wide", ctx.scale(600, 5000)), ("legal", ctx.scale(350, 3000)), ("announced", ctx.scale(400, 3000)),
+            ("undocumented", ctx.scale(300, 2000))]
 
 
 def gen_case(ctx, stream, idx):
